@@ -363,8 +363,12 @@ func init() {
 		v := g.newConst("parsedf", "Real")
 		e := g.newConst("perr", "Iface")
 		ok := sEq(app("i.typ", e), "0")
-		g.assert(sEq(ok, app("fltTextOk", a[0])))
-		g.assert(sImp(ok, sEq(v, app("fltOfText", a[0]))))
+		// the value of the text only at full width: ParseFloat(s, 32) rounds to single precision (and overflows
+		// earlier), so nothing is said about its value and a failure says nothing about the text
+		w64 := sEq(a[1], "64")
+		g.assert(sImp(ok, app("fltTextOk", a[0])))
+		g.assert(sImp(w64, sEq(ok, app("fltTextOk", a[0]))))
+		g.assert(sImp(sAnd(ok, w64), sEq(v, app("fltOfText", a[0]))))
 		return []string{v, e}
 	})
 	def("strconv.Atoi", none, func(g *gen, st *state, c *ssa.CallCommon, a []string, in ssa.Instruction) []string {
